@@ -14,6 +14,28 @@ func genC15(t *rapid.T) RaceCase {
 	if !rc.External && rapid.IntRange(0, 3).Draw(t, "reopened") == 0 {
 		rc.Prefill = rapid.SampledFrom([]int{50, 600, 2000}).Draw(t, "prefill")
 	}
+	if rapid.IntRange(0, 3).Draw(t, "storm") == 0 {
+		// conflict storm: snapshot transactions that keep losing (or winning) write-write conflicts on one
+		// key against autocommit writers, while ReadUncommitted readers look at that key: the abort and
+		// clean-up paths of Commit run concurrently with reads
+		lvl := rapid.SampledFrom([]int{2, 3}).Draw(t, "stormLvl")
+		rounds := rapid.IntRange(4, 12).Draw(t, "stormRounds")
+		var committer, writer, reader []Op
+		for i := 0; i < rounds; i++ {
+			committer = append(committer, Op{K: "begin", Lvl: lvl}, Op{K: "get", Key: 0, H: 1}, Op{K: "set", Key: 0, H: 1, Len: 10},
+				Op{K: "set", Key: 1, H: 1, Len: 3}, Op{K: "commit"})
+			writer = append(writer, Op{K: "set", Key: 0, Len: 1}, Op{K: "set", Key: 0, Len: 2})
+			reader = append(reader, Op{K: "begin", Lvl: 0}, Op{K: "get", Key: 0, H: 1}, Op{K: "keys", H: 1}, Op{K: "get", Key: 1, H: 1}, Op{K: "rollback"})
+		}
+		rc.Workers = [][]Op{committer, writer, reader, reader}
+		if rapid.Bool().Draw(t, "stormSecondCommitter") {
+			rc.Workers = append(rc.Workers, committer)
+		}
+		if rapid.Bool().Draw(t, "stormGC") {
+			rc.Workers = append(rc.Workers, []Op{{K: "gc"}, {K: "gc"}, {K: "gc"}})
+		}
+		return rc
+	}
 	ng := rapid.IntRange(3, 8).Draw(t, "goroutines")
 	for g := 0; g < ng; g++ {
 		n := rapid.IntRange(2, 14).Draw(t, "nops")
